@@ -1,7 +1,19 @@
 /-
   C20 — Standard-atmosphere and airspeed conversions are consistent (extra/aero.py).
+
+  The model `PyModeS.Aero` (Model/Aero.lean) is written once over a numeric class; here it is taken at
+  `ℝ` (instance `Aero.instAeroOpsReal` in Proofs/Aero/Real.lean: `sqrt = Real.sqrt`, `exp = Real.exp`,
+  `pow = Real.rpow`, `sin/cos = Real.sin/Real.cos`, `acos = Real.arccos`, `pi = Real.pi`,
+  `atan2 y x = Complex.arg ⟨x, y⟩`, `mod360 x = x - 360 * ⌊x / 360⌋`) and the laws are proved there.
+  `H` is the altitude in metres; unless a hypothesis says otherwise the statements hold for EVERY real
+  `H` (in particular on the property's range −500 ≤ H ≤ 20000).  The ordering statements of §4 need
+  `0 ≤ H` (below sea level the ISA density exceeds `rho0` and the orderings reverse).
 -/
 import PyModeS.Model.Aero
+import PyModeS.Proofs.Aero.Real
+import PyModeS.Proofs.Aero.Atmos
+import PyModeS.Proofs.Aero.Speeds
+import PyModeS.Proofs.Aero.Geo
 namespace PyModeS.C20
 open Aero
 
@@ -9,5 +21,169 @@ open Aero
 theorem mach2cas_def {α : Type} [Add α] [Sub α] [Mul α] [Div α] [Neg α] [OfScientific α] [OfNat α 0] [OfNat α 1] [Max α]
     [LT α] [DecidableLT α] [AeroOps α] (m H : α) :
     mach2cas m H = tas2cas (mach2tas m H) H ∧ cas2mach m H = tas2mach (cas2tas m H) H := ⟨rfl, rfl⟩
+
+/-! ## 1. Positivity (every real `H`) -/
+
+theorem temperature_pos (H : ℝ) : 0 < temperature H := Aero.temperature_pos H
+theorem density_pos (H : ℝ) : 0 < density H := Aero.density_pos H
+theorem pressure_pos (H : ℝ) : 0 < pressure H := Aero.pressure_pos H
+theorem vsound_pos (H : ℝ) : 0 < vsound H := Aero.vsound_pos H
+/-- the stratosphere floor: the temperature never drops below 216.65 K -/
+theorem temperature_ge (H : ℝ) : (216.65 : ℝ) ≤ temperature H := Aero.T_ge H
+
+example : 0 < density (5000 : ℝ) ∧ 0 < pressure (-500 : ℝ) ∧ 0 < vsound (20000 : ℝ) :=
+  ⟨density_pos _, pressure_pos _, vsound_pos _⟩
+
+/-! ## 2. Inverse pairs
+  The CAS pair needs `0 ≤ V` (the result of a conversion is a square root, hence non-negative, so
+  the round trip of a negative speed returns `|V|`); the EAS and Mach pairs hold for every real. -/
+
+theorem cas2tas_tas2cas {V : ℝ} (hV : 0 ≤ V) (H : ℝ) : cas2tas (tas2cas V H) H = V :=
+  Aero.cas2tas_tas2cas hV H
+theorem tas2cas_cas2tas {V : ℝ} (hV : 0 ≤ V) (H : ℝ) : tas2cas (cas2tas V H) H = V :=
+  Aero.tas2cas_cas2tas hV H
+theorem eas2tas_tas2eas (V H : ℝ) : eas2tas (tas2eas V H) H = V := Aero.eas2tas_tas2eas V H
+theorem tas2eas_eas2tas (V H : ℝ) : tas2eas (eas2tas V H) H = V := Aero.tas2eas_eas2tas V H
+theorem mach2tas_tas2mach (V H : ℝ) : mach2tas (tas2mach V H) H = V := Aero.mach2tas_tas2mach V H
+theorem tas2mach_mach2tas (M H : ℝ) : tas2mach (mach2tas M H) H = M := Aero.tas2mach_mach2tas M H
+theorem cas2mach_mach2cas {M : ℝ} (hM : 0 ≤ M) (H : ℝ) : cas2mach (mach2cas M H) H = M :=
+  Aero.cas2mach_mach2cas hM H
+theorem mach2cas_cas2mach {V : ℝ} (hV : 0 ≤ V) (H : ℝ) : mach2cas (cas2mach V H) H = V :=
+  Aero.mach2cas_cas2mach hV H
+
+example : cas2tas (tas2cas (200 : ℝ) 5000) 5000 = 200 := cas2tas_tas2cas (by norm_num) 5000
+example : tas2cas (cas2tas (150 : ℝ) 11000) 11000 = 150 := tas2cas_cas2tas (by norm_num) 11000
+example : cas2mach (mach2cas (0.78 : ℝ) 10668) 10668 = 0.78 := cas2mach_mach2cas (by norm_num) 10668
+example : mach2cas (cas2mach (140 : ℝ) (-500)) (-500) = 140 := mach2cas_cas2mach (by norm_num) (-500)
+
+/-! ## 3. Strict monotonicity in speed
+  (the linear conversions are strictly monotone on all of ℝ, which is stronger than on `[0, ∞)`) -/
+
+theorem tas2cas_strictMonoOn (H : ℝ) : StrictMonoOn (fun V : ℝ => tas2cas V H) (Set.Ici 0) :=
+  Aero.tas2cas_strictMonoOn H
+theorem cas2tas_strictMonoOn (H : ℝ) : StrictMonoOn (fun V : ℝ => cas2tas V H) (Set.Ici 0) :=
+  Aero.cas2tas_strictMonoOn H
+theorem mach2cas_strictMonoOn (H : ℝ) : StrictMonoOn (fun M : ℝ => mach2cas M H) (Set.Ici 0) :=
+  Aero.mach2cas_strictMonoOn H
+theorem cas2mach_strictMonoOn (H : ℝ) : StrictMonoOn (fun V : ℝ => cas2mach V H) (Set.Ici 0) :=
+  Aero.cas2mach_strictMonoOn H
+theorem tas2eas_strictMono (H : ℝ) : StrictMono (fun V : ℝ => tas2eas V H) := Aero.tas2eas_strictMono H
+theorem eas2tas_strictMono (H : ℝ) : StrictMono (fun V : ℝ => eas2tas V H) := Aero.eas2tas_strictMono H
+theorem tas2mach_strictMono (H : ℝ) : StrictMono (fun V : ℝ => tas2mach V H) := Aero.tas2mach_strictMono H
+theorem mach2tas_strictMono (H : ℝ) : StrictMono (fun M : ℝ => mach2tas M H) := Aero.mach2tas_strictMono H
+theorem tas2eas_strictMonoOn (H : ℝ) : StrictMonoOn (fun V : ℝ => tas2eas V H) (Set.Ici 0) :=
+  (tas2eas_strictMono H).strictMonoOn _
+theorem eas2tas_strictMonoOn (H : ℝ) : StrictMonoOn (fun V : ℝ => eas2tas V H) (Set.Ici 0) :=
+  (eas2tas_strictMono H).strictMonoOn _
+theorem tas2mach_strictMonoOn (H : ℝ) : StrictMonoOn (fun V : ℝ => tas2mach V H) (Set.Ici 0) :=
+  (tas2mach_strictMono H).strictMonoOn _
+theorem mach2tas_strictMonoOn (H : ℝ) : StrictMonoOn (fun M : ℝ => mach2tas M H) (Set.Ici 0) :=
+  (mach2tas_strictMono H).strictMonoOn _
+
+example : tas2cas (200 : ℝ) 5000 < tas2cas (201 : ℝ) 5000 :=
+  tas2cas_strictMonoOn 5000 (by norm_num) (by norm_num) (by norm_num)
+example : cas2mach (120 : ℝ) 9000 < cas2mach (130 : ℝ) 9000 :=
+  cas2mach_strictMonoOn 9000 (by norm_num) (by norm_num) (by norm_num)
+
+/-! ## 4. Orderings at altitude -/
+
+/-- temperature, density and pressure are non-increasing in altitude, on all of ℝ -/
+theorem temperature_antitone : Antitone (fun H : ℝ => temperature H) := Aero.temperature_antitone
+theorem density_antitone : Antitone (fun H : ℝ => density H) := Aero.density_antitone
+theorem pressure_antitone : Antitone (fun H : ℝ => pressure H) := Aero.pressure_antitone
+
+theorem density_le_rho0 {H : ℝ} (hH : 0 ≤ H) : density H ≤ rho0 := Aero.density_le_rho0 hH
+theorem pressure_le_p0 {H : ℝ} (hH : 0 ≤ H) : pressure H ≤ p0 := Aero.pressure_le_p0 hH
+/-- below sea level the ordering is the other way round -/
+theorem rho0_le_density {H : ℝ} (hH : H ≤ 0) : rho0 ≤ density H := by
+  rw [← Aero.density_zero']; exact density_antitone hH
+
+/-- EAS ≤ TAS -/
+theorem tas2eas_le_self {V H : ℝ} (hV : 0 ≤ V) (hρ : density H ≤ rho0) : tas2eas V H ≤ V :=
+  Aero.tas2eas_le_self hV hρ
+theorem tas2eas_le_self_of_nonneg {V H : ℝ} (hV : 0 ≤ V) (hH : 0 ≤ H) : tas2eas V H ≤ V :=
+  tas2eas_le_self hV (density_le_rho0 hH)
+
+/-- EAS ≤ CAS (Jensen's inequality for the convex `x ↦ x ^ 3.5`) -/
+theorem tas2eas_le_tas2cas {V H : ℝ} (hV : 0 ≤ V) (hp : pressure H ≤ p0) : tas2eas V H ≤ tas2cas V H :=
+  Aero.tas2eas_le_tas2cas hV hp
+theorem tas2eas_le_tas2cas_of_nonneg {V H : ℝ} (hV : 0 ≤ V) (hH : 0 ≤ H) : tas2eas V H ≤ tas2cas V H :=
+  tas2eas_le_tas2cas hV (pressure_le_p0 hH)
+
+/-- the companion upper bound: CAS² ≤ (p0 / p) · EAS² -/
+theorem tas2cas_sq_le {V H : ℝ} (hp : pressure H ≤ p0) :
+    tas2cas V H * tas2cas V H ≤ p0 / pressure H * (tas2eas V H * tas2eas V H) := by
+  have := Aero.tas2cas_mul_self_le (V := V) hp
+  rwa [Aero.p0_eq, Aero.pressure_eq]
+
+example : tas2eas (200 : ℝ) 5000 ≤ 200 := tas2eas_le_self_of_nonneg (by norm_num) (by norm_num)
+example : tas2eas (200 : ℝ) 5000 ≤ tas2cas (200 : ℝ) 5000 :=
+  tas2eas_le_tas2cas_of_nonneg (by norm_num) (by norm_num)
+
+/-! ## 5. Sea level -/
+
+theorem temperature_zero : temperature (0 : ℝ) = 288.15 := Aero.temperature_zero
+theorem density_zero : density (0 : ℝ) = 1.225 := Aero.density_zero
+theorem tas2eas_zero (V : ℝ) : tas2eas V 0 = V := Aero.tas2eas_zero V
+theorem eas2tas_zero (V : ℝ) : eas2tas V 0 = V := Aero.eas2tas_zero V
+/-- `pressure 0 = rho0 · R · T0 = 101324.9984988625…`, which is NOT `p0 = 101325` -/
+theorem pressure_zero : pressure (0 : ℝ) = 1.225 * 287.05287 * 288.15 := Aero.pressure_zero
+theorem pressure_zero_ne_p0 : pressure (0 : ℝ) ≠ p0 := by
+  rw [pressure_zero, Aero.p0_eq]; norm_num
+theorem pressure_zero_near_p0 : |pressure (0 : ℝ) - p0| ≤ 0.0016 := Aero.pressure_zero_near_p0
+/-- hence `tas2cas · 0` is the identity only up to 2e-8 relative (true value ≈ 0.74e-8), for every
+    `V ≥ 0` (not only `V ≤ 450`), and it never under-reads -/
+theorem tas2cas_zero_near {V : ℝ} (hV : 0 ≤ V) : |tas2cas V 0 - V| ≤ 2e-8 * V := Aero.tas2cas_zero_near hV
+theorem self_le_tas2cas_zero {V : ℝ} (hV : 0 ≤ V) : V ≤ tas2cas V 0 := Aero.self_le_tas2cas_zero hV
+
+example : |tas2cas (450 : ℝ) 0 - 450| ≤ 2e-8 * 450 := tas2cas_zero_near (by norm_num)
+
+/-! ## 6. Continuity in altitude (no jump at the tropopause) -/
+
+theorem temperature_continuous : Continuous (fun H : ℝ => temperature H) := Aero.temperature_continuous
+theorem density_continuous : Continuous (fun H : ℝ => density H) := Aero.density_continuous
+theorem pressure_continuous : Continuous (fun H : ℝ => pressure H) := Aero.pressure_continuous
+theorem vsound_continuous : Continuous (fun H : ℝ => vsound H) := Aero.vsound_continuous
+theorem temperature_tropopause : temperature (11000 : ℝ) = 216.65 := Aero.T_tropopause
+
+example : ContinuousAt (fun H : ℝ => density H) 11000 := density_continuous.continuousAt
+
+/-! ## 7. Geometry -/
+
+theorem distance_comm (lat1 lon1 lat2 lon2 H : ℝ) :
+    distance lat1 lon1 lat2 lon2 H = distance lat2 lon2 lat1 lon1 H := Aero.distance_comm _ _ _ _ _
+
+theorem bearing_mem (lat1 lon1 lat2 lon2 : ℝ) :
+    0 ≤ bearing lat1 lon1 lat2 lon2 ∧ bearing lat1 lon1 lat2 lon2 < 360 := Aero.bearing_mem _ _ _ _
+
+/-- more precisely: the bearing is the `atan2` angle in degrees, plus one turn when it is negative -/
+theorem bearing_cases (lat1 lon1 lat2 lon2 : ℝ) :
+    let θ := Complex.arg ⟨Real.cos (radians lat1) * Real.sin (radians lat2)
+        - Real.sin (radians lat1) * Real.cos (radians lat2) * Real.cos (radians lon2 - radians lon1),
+        Real.sin (radians lon2 - radians lon1) * Real.cos (radians lat2)⟩
+    bearing lat1 lon1 lat2 lon2 = if 0 ≤ θ then degrees θ else degrees θ + 360 :=
+  Aero.bearing_cases _ _ _ _
+
+/-- the law-of-cosines value that `distance` clamps and feeds to `acos` equals the haversine expression -/
+theorem cosArc_haversine (lat1 lon1 lat2 lon2 : ℝ) : cosArc lat1 lon1 lat2 lon2 =
+    1 - 2 * (Real.sin ((radians (90 - lat1) - radians (90 - lat2)) / 2) ^ 2
+      + Real.sin (radians (90 - lat1)) * Real.sin (radians (90 - lat2))
+        * Real.sin ((radians lon1 - radians lon2) / 2) ^ 2) := Aero.cosArc_haversine _ _ _ _
+
+/-- over ℝ the clamp never fires: `distance = arccos (cosArc) · (r_earth + H)` -/
+theorem distance_eq_arccos (lat1 lon1 lat2 lon2 H : ℝ) :
+    distance lat1 lon1 lat2 lon2 H = Real.arccos (cosArc lat1 lon1 lat2 lon2) * (6371000 + H) :=
+  Aero.distance_eq_arccos _ _ _ _ _
+
+theorem distance_nonneg (lat1 lon1 lat2 lon2 : ℝ) {H : ℝ} (hH : -6371000 ≤ H) :
+    0 ≤ distance lat1 lon1 lat2 lon2 H := Aero.distance_nonneg _ _ _ _ hH
+/-- at most half the circumference -/
+theorem distance_le (lat1 lon1 lat2 lon2 : ℝ) {H : ℝ} (hH : -6371000 ≤ H) :
+    distance lat1 lon1 lat2 lon2 H ≤ Real.pi * (6371000 + H) := Aero.distance_le _ _ _ _ hH
+theorem distance_self (lat lon H : ℝ) : distance lat lon lat lon H = 0 := Aero.distance_self _ _ _
+
+example : distance (52 : ℝ) 4 48.85 2.35 0 = distance (48.85 : ℝ) 2.35 52 4 0 := distance_comm _ _ _ _ _
+example : 0 ≤ distance (52 : ℝ) 4 48.85 2.35 10000 := distance_nonneg _ _ _ _ (by norm_num)
+example : bearing (52 : ℝ) 4 48.85 2.35 < 360 := (bearing_mem _ _ _ _).2
 
 end PyModeS.C20
